@@ -11,8 +11,8 @@
   relates the two.  `rr` = row reader, `fs` = the RemoteReader (`none` = error).  Credentials / pg_control
   results are other areas' business: `Summary` is modelled as far as databases and tables go.
 
-  `strings.EqualFold` is modelled on ASCII (names in generated clusters are ASCII or caseless UTF-8);
-  `fmt.Sscanf("%d")` on PG_VERSION as "optional sign, decimal digits".
+  `strings.EqualFold` = `GoCase.goEqualFold` (Model/GoCase.lean: Go's function on ASCII, invalid UTF-8 and a stated alphabet
+  of cased letters); `fmt.Sscanf("%d")` on PG_VERSION as "optional sign, decimal digits".
 -/
 import PgVerif.Model.Cluster
 namespace PgVerif.Model
@@ -107,7 +107,7 @@ def sortByFilenode (l : List TableInfo) : List TableInfo := l.foldr insertByFile
 def tablesOf (π : MapOrder TableInfo) (tables : List (Nat × TableInfo)) : List TableInfo :=
   sortByFilenode ((π tables).map (·.2))
 
-def equalFold (a b : Bytes) : Bool := lowerB a == lowerB b
+def equalFold (a b : Bytes) : Bool := GoCase.goEqualFold a b
 
 /-- fix 03: exact match first, then the first case-insensitive match -/
 def findByName {α} (name : α → Bytes) (l : List α) (n : Bytes) : Option α :=
@@ -146,20 +146,12 @@ def queryWith (rr : RowReader) (fs : RemoteReader) (dbOID : Nat) (table : Option
           | none => rows
         pure rows
 
-/-- remote.go:DumpTable on loaded columns -/
+/-- remote.go:DumpTable on loaded columns (the cache-free `dumpTableCold` of Model/RemoteCold.lean is what the theorems use; this
+form is kept for `C10_total_dumpTableWith`) -/
 def dumpTableWith (rr : RowReader) (fs : RemoteReader) (dbOID : Nat) (t : TableInfo) (attrs : List AttrInfo) : M TableDump := do
   let rows ← queryWith rr fs dbOID (some t) attrs none
   let cols : List ColumnInfo := (attrs.filter (·.num > 0)).map fun a => ⟨a.name, typeName a.typid, a.typid⟩
   pure { oid := t.oid, name := t.name, filenode := t.filenode, kind := t.kind, columns := cols, rows, rowCount := rows.length }
-
-/-- the loop body of DumpDatabase (fix 02: relkind filter) -/
-def dumpDbStep (rr : RowReader) (fs : RemoteReader) (dbOID : Nat) (cols : List (Nat × List AttrInfo)) (t : TableInfo) :
-    M (Option TableDump) :=
-  if isPrefixB (strBytes "pg_") t.name || isPrefixB (strBytes "sql_") t.name then pure none
-  else if t.kind != [114] && t.kind != [] then pure none
-  else do
-    let td ← dumpTableWith rr fs dbOID t ((mapGet cols t.oid).getD [])
-    pure (if td.rows.length > 0 then some td else none)
 
 /-! ### methods with the cache threaded through -/
 
